@@ -347,6 +347,33 @@ def find_args_decoder(an: Analysis) -> FunctionInfo:
     raise AnalysisError(f"decoder of Args (a call Args(field=...) in the from_code closure) not found uniquely: {[f.qual for f in cands]}")
 
 
+def r041_input(an, rep):
+    """The argument decoder is given co_varnames, co_argcount, co_posonlyargcount and co_kwonlyargcount as they are: CPython binds parameters
+    to the first slots of co_varnames whatever else is true of them (a parameter captured by a closure is still a parameter)."""
+    it, _ = an.interp("from_code")
+    ai = an.prog.cls("code_data._args::ArgsInput")
+    want = {"varnames": "co_varnames", "argcount": "co_argcount", "kwonlyargcount": "co_kwonlyargcount"}
+    n = 0
+    for f in an.closure("from_code"):
+        for c in ast.walk(f.node):
+            if isinstance(c, ast.Call) and isinstance(c.func, ast.Name) and c.func.id == ai.name:
+                given = {k.arg: k.value for k in c.keywords if k.arg}
+                for fl, a in zip(ai.fields, c.args):
+                    given[fl.name] = a
+                for fld, attr in want.items():
+                    if fld not in given:
+                        continue
+                    n += 1
+                    vals = it.value_at(given[fld])
+                    direct = bool(vals) and all(a[0] == "src" and a[1] == "code" and a[2] == (("a", attr),) for a in vals)
+                    rep.add("R04.1", f"{f.qual}::{ai.name}.{fld} is code.{attr} itself", direct, loc(f.module, given[fld]),
+                            f"`{norm_src(given[fld])}` is code.{attr}" if direct else
+                            f"`{norm_src(given[fld])[:60]}` is not code.{attr} as it is (it is computed / filtered first): the parameters are the first slots of co_varnames, so a name taken "
+                            f"out or moved before the split (e.g. every name that is also in co_cellvars: `def f(a, b): return lambda: a`) shifts all later parameters")
+    if n == 0:
+        raise AnalysisError(f"construction of {ai.name} not found in the decode closure")
+
+
 def r041_unconditional(an, rep):
     """The arguments of every function-like code object go through the decoder: `*args` / `**kwargs` are not counted in co_argcount /
     co_kwonlyargcount, so a shortcut on the counts loses them; any Args value in the decoded data comes from the decoder."""
@@ -403,7 +430,7 @@ def run(an: Analysis, rep):
     from .common import field_rewrite_rule, substring_rule
     rep.run(field_rewrite_rule, an, rep, "R04.8")
     rep.run(substring_rule, an, rep, "R04.9", ["parameters", "args_len"])
-    for fn in (r041, r041_unconditional, r042, r043, r044, r045, r046, r046_kind, r046_module_await, r047):
+    for fn in (r041, r041_input, r041_unconditional, r042, r043, r044, r045, r046, r046_kind, r046_module_await, r047):
         rep.run(fn, an, rep)
     from .common import SharedRules
     from . import c11
@@ -632,6 +659,14 @@ def r045(an, rep):
                     raise AnalysisError(f"{f.qual}: docstring expression {norm_src(e)}: constants table not recognised")
                 tab = tabs.pop()
                 others = [x for x in free if x != tab]
+                # CPython's rule (funcobject.c func_new) looks at co_consts[0] and nothing else: anything else the expression reads from the code object is a deviation
+                foreign = sorted({norm_src(a) for a in ast.walk(e) if isinstance(a, ast.Attribute) and a.attr.startswith("co_") and a.attr != "co_consts"})
+                if foreign:
+                    done = True
+                    rep.add("R04.5", f"{f.qual}::docstring rule", False, loc(f.module, kws["docstring"]),
+                            f"the docstring expression `{norm_src(e)[:110]}` also depends on {foreign}: CPython's __doc__ is co_consts[0] whenever that is a str, whatever the "
+                            f"instructions do with it (`def f(): \"ok\"; return \"ok\"` has __doc__ 'ok' although the body loads the same constant)")
+                    continue
                 args_models = [
                     {"positional_only": (), "positional_or_keyword": ("a",), "var_positional": None, "keyword_only": (), "var_keyword": None},
                     {"positional_only": (), "positional_or_keyword": (".0",), "var_positional": None, "keyword_only": (), "var_keyword": None},
